@@ -200,6 +200,11 @@ func init() {
 				small(inst("internal/receiver", "HHostileRecvFiles", "L", 8)),
 				small(inst("internal/receiver", "HHostileRecvFiles", "L", 28)),
 				small(inst("internal/rsyncwire", "HHostileMux", "L", 10)),
+				inst("internal/rsyncopts", "HPeerArgs", "daemon", 0),
+				inst("internal/rsyncopts", "HPeerArgs", "daemon", 1),
+				small(inst("rsyncd", "HHostileDaemon", "mode", 0, "n", 10)),
+				small(inst("rsyncd", "HHostileDaemon", "mode", 1, "n", 2)),
+				small(inst("rsyncd", "HHostileDaemon", "mode", 2, "n", 2)),
 				small(inst("internal/sender", "HHostileFilter", "L", 9, "nameLen", 1)),
 			}
 			if tier == "thorough" {
@@ -211,6 +216,8 @@ func init() {
 					small(inst("internal/receiver", "HHostileIdList", "L", 16)),
 					small(inst("internal/receiver", "HHostileRecvFiles", "L", 36)),
 					small(inst("internal/rsyncwire", "HHostileMux", "L", 14)),
+					small(inst("rsyncd", "HHostileDaemon", "mode", 1, "n", 3)),
+					small(inst("rsyncd", "HHostileDaemon", "mode", 2, "n", 3)),
 				)
 			}
 			return out
@@ -218,7 +225,7 @@ func init() {
 		MustReach: []string{"error", "ok"},
 		Redirects: sym.VfsRedirects(),
 		Bounds:    "each parser of peer bytes is fed an arbitrary byte string of the instance's length L (all 256^L values, including truncation = end of input anywhere); count-like fields are explored up to 8 after their sign check",
-		Outside:   "declared sizes above 8 (quick) after the sign check; buffers longer than L; stalls and resource exhaustion; the daemon's text protocol and option parser (covered by C07/C14 harnesses where built)",
+		Outside:   "declared sizes above 8 (quick) after the sign check; buffers longer than L; stalls and resource exhaustion; the client side of the daemon handshake (StartInbandExchange uses fmt.Sscanf, not modelled); argument lines: every option the parser tables know with a few argument shapes, and arbitrary lines of n bytes",
 	})
 	reg(&Property{
 		ID: "C16",
